@@ -382,6 +382,52 @@ example :
     rcases hm with ⟨rfl, rfl⟩
     exact ⟨rfl, by unfold bytesOK; decide, by decide⟩
 
+/-! ### histories: the trust decision is a function of configuration and peer only -/
+
+/-- two connections with the same peer address get the same trust decision, whatever else differs
+    (TLS, Host, protocol) and whatever was served before -/
+theorem trust_is_function_of_config_and_peer (cfg : Cfg) (cn1 cn2 : Conn) (h : cn1.rip = cn2.rip)
+    (hs : cn1.ripStr = cn2.ripStr) : isProxyTrusted cfg cn1 = isProxyTrusted cfg cn2 := by
+  unfold isProxyTrusted; rw [h, hs]
+
+/-- with `net.IP.String()` inside the model the peer bytes alone decide -/
+theorem trust_is_function_of_peer_bytes (cfg : Cfg) (cn1 cn2 : Conn) (h : cn1.rip = cn2.rip)
+    (h1 : cn1.ripStr = ipString cn1.rip) (h2 : cn2.ripStr = ipString cn2.rip) :
+    isProxyTrusted cfg cn1 = isProxyTrusted cfg cn2 :=
+  trust_is_function_of_config_and_peer cfg cn1 cn2 h (by rw [h1, h2, h])
+
+/-- the answer to the last request of a history does not depend on the earlier requests -/
+theorem history_last_output (cfg : Cfg) (off : Nat) (earlier : List (Conn × Headers)) (cn : Conn) (hs : Headers) :
+    (serveAll cfg off (earlier ++ [(cn, hs)])).getLast? = some (outputs cfg cn off hs) := by
+  simp [serveAll]
+
+/-- **non-interference along a history**: whatever peers (trusted or not, however their bytes relate to
+    this one's) were served before with whatever headers, a request from a peer outside the configured
+    set gets the connection/Host-only values, the same for any two header lists -/
+theorem history_untrusted_noninterference (cfg : Cfg) (off : Nat) (earlier1 earlier2 : List (Conn × Headers))
+    (cn : Conn) (hf : FormatOK cfg.proxies cn) (hon : cfg.trustProxy = true) (hout : inSet cfg cn = false)
+    (hs1 hs2 : Headers) :
+    ∃ o1 o2, (serveAll cfg off (earlier1 ++ [(cn, hs1)])).getLast? = some o1 ∧
+      (serveAll cfg off (earlier2 ++ [(cn, hs2)])).getLast? = some o2 ∧
+      gated o1 = gated o2 ∧ connOnly cn off o1 = true :=
+  ⟨_, _, history_last_output cfg off earlier1 cn hs1, history_last_output cfg off earlier2 cn hs2,
+    (untrusted_noninterference_of_format cfg cn off hf hon hout hs1 hs2).1,
+    (untrusted_noninterference_of_format cfg cn off hf hon hout hs1 hs2).2⟩
+
+-- non-vacuity: 10.0.0.1 (inside the listed 10.0.0.0/8) is trusted, a00:1:: — the same leading four
+-- bytes, zero tail — is not, in either order of a history
+example :
+    let cfg : Cfg := { trustProxy := true, loopback := false, priv := false, linkLocal := false,
+                       proxies := [.cidr [10, 0, 0, 0] [255, 0, 0, 0]], proxyHeader := b "X-Forwarded-For",
+                       normProxyHeader := b "X-Forwarded-For", validate := false }
+    let v4 : Conn := { rip := [10, 0, 0, 1], ripStr := b "10.0.0.1", tls := false, uriHost := b "example.com", proto := b "HTTP/1.1" }
+    let v6 : Conn := { rip := [10, 0, 0, 1] ++ List.replicate 12 0, ripStr := b "a00:1::", tls := false, uriHost := b "example.com", proto := b "HTTP/1.1" }
+    let hs : Headers := [(b "X-Forwarded-For", b "1.2.3.4"), (b "X-Forwarded-Proto", b "https")]
+    v6.ripStr = ipString v6.rip ∧ inSet cfg v4 = true ∧ inSet cfg v6 = false ∧
+    (serveAll cfg 2 [(v4, hs), (v6, hs), (v4, hs)]).map (·.ip) = [b "1.2.3.4", b "a00:1::", b "1.2.3.4"] ∧
+    (serveAll cfg 2 [(v4, hs), (v6, hs)]).map (·.scheme) = [b "https", b "http"] := by
+  decide
+
 /-! ### secure flag -/
 
 /-- the secure flag is true exactly when the scheme is https -/
